@@ -5,3 +5,4 @@ import PycommProps.C04
 #print axioms Pycomm.C04.write_request_fits
 #print axioms Pycomm.C04.write_fragments_tile
 #print axioms Pycomm.C04.read_fragments_tile
+#print axioms Pycomm.C04.read_frag_e2e
